@@ -6,7 +6,7 @@ package main
 //        -> `ok <hex of the login record>` | `err`      real LoginConfig.pack vs the Lean interpreter of the
 //           regenerated layout (Gen/LoginLayout.lean)
 //   lwc <n> <rounds>                                    (oracle only) n encrypted logins at the same time: session keys fresh
-//   lw <enc> <pwhex> <nremote> <noncelen> <userhex> [<nonce kind g|z|z2|lz|ff>]    (oracle only, no model)
+//   lw <enc> <pwhex> <nremote> <noncelen> <userhex> [<nonce kind g|z|z2|lz|ff> [<packet size>]]    (oracle only, no model)
 //        -> `ok …` | violated clause: a full Login against the scripted peer; everything the client wrote
 //           and every error text is searched for the secrets, the ciphertexts are decrypted with the
 //           peer's private key (RSA-OAEP/SHA-1) and compared with nonce || secret.
@@ -159,11 +159,15 @@ func bodiesOf(w []byte) [][]byte {
 }
 
 func lwImpl(f []string) string {
-	if len(f) != 5 && len(f) != 6 {
+	if len(f) < 5 || len(f) > 7 {
 		return "bad-op"
 	}
 	nonceKind := "g"
-	if len(f) == 6 {
+	packetSize := 0
+	if len(f) == 7 {
+		packetSize, _ = strconv.Atoi(f[6])
+	}
+	if len(f) >= 6 {
 		nonceKind = f[5]
 		f = f[:5]
 	}
@@ -193,6 +197,9 @@ func lwImpl(f []string) string {
 			return nil, "", "setup", nil, nil
 		}
 		defer conn.VerifCancel()
+		if packetSize >= 64 {
+			conn.VerifSetPacketSize(packetSize) // the packet size in force (whatever a server negotiated earlier)
+		}
 		ch, _ := conn.NewChannel()
 		cfg, _ := tds.NewLoginConfig(info)
 		cfg.Encrypt = tds.TDSMsgId(enc)
@@ -577,6 +584,10 @@ func init() {
 				pw := rndText(rng, pl)
 				emit(Case{Line: fmt.Sprintf("lw 35 %s %d %d %s", hx(pw), pl%3, 16, hx([]byte("sa"))), Kind: "wire-boundary"})
 				emit(Case{Line: fmt.Sprintf("lw 0 %s 0 16 %s", hx(pw), hx([]byte("sa"))), Kind: "wire-plain-control"})
+			}
+			// packet sizes: for some of them a package of the password message ends exactly with a packet
+			for ps := 150; ps <= 176; ps++ {
+				emit(Case{Line: fmt.Sprintf("lw 35 %s %d 16 %s g %d", hx([]byte("Secret-pw-1")), ps%2, hx([]byte("sa")), ps), Kind: "wire-packet-size"})
 			}
 			// nonces ending in / starting with NUL bytes
 			for _, nk := range []string{"z", "z2", "lz", "ff"} {
